@@ -269,7 +269,61 @@ def _patch_crosshair():
     exec(_FIXED_SEARCH_SRC, ns)
     relib._search.__code__ = ns["_search_fixed"].__code__
     _install_quote_model()
+    _install_concretizers()
     _PATCHED = True
+
+
+def _install_concretizers():
+    """Engine optimisation without change of meaning: URL normalisation/validation and reference-label normalisation are regex-
+    and case-mapping-heavy; a destination or label is a slice of the (symbolic-typed) source and costs 30-100 CPU-s per call in
+    CrossHair's symbolic string algorithms even when every one of its characters is concrete.  When ALL code points of the argument
+    are concrete ints the very same real function is called with the equal native str; arguments with a symbolic character are untouched."""
+    import functools
+
+    from crosshair.libimpl.builtinslib import LazyIntSymbolicStr
+    from crosshair.tracers import NoTracing
+
+    def native_if_concrete(x):
+        with NoTracing():
+            if type(x) is not LazyIntSymbolicStr:
+                return x
+            pts = x._codepoints
+            n = _concrete_len(pts)
+            if n is None or n > 4096:
+                return x
+            out = []
+            try:
+                for k in range(n):
+                    c = pts[k]
+                    if type(c) is not int:
+                        return x
+                    out.append(c)
+            except BaseException as e:  # symbolic index arithmetic inside a view: leave the argument alone
+                if type(e).__name__ != "CrossHairInternal":
+                    raise
+                return x
+            return "".join(map(chr, out))
+
+    def wrap(fn):
+        @functools.wraps(fn)
+        def w(arg, *a, **kw):
+            return fn(native_if_concrete(arg), *a, **kw)
+
+        w.__wrapped_by_vcheck__ = True
+        return w
+
+    import markdown_it.common.normalize_url as nu
+    import markdown_it.common.utils as cu
+    import markdown_it.rules_block.reference as rb
+    import markdown_it.rules_inline.image as ri
+    import markdown_it.rules_inline.link as rl
+
+    for mod, names in ((nu, ("normalizeLink", "normalizeLinkText", "validateLink")), (cu, ("normalizeReference",)),
+                       (rb, ("normalizeReference",)), (ri, ("normalizeReference",)), (rl, ("normalizeReference",))):
+        for nm in names:
+            f = getattr(mod, nm, None)
+            if f is not None and not getattr(f, "__wrapped_by_vcheck__", False):
+                setattr(mod, nm, wrap(f))
 
 
 def _install_quote_model():
